@@ -210,3 +210,85 @@ class _SubstAny(ast.NodeTransformer):
             ast.copy_location(r, node)
             return r
         return node
+
+
+def _store_counts(fn):
+    stores = {}
+    for n in ast.walk(fn):
+        if isinstance(n, ast.Name) and isinstance(n.ctx, ast.Store):
+            stores[n.id] = stores.get(n.id, 0) + 1
+        elif isinstance(n, ast.arg):
+            stores[n.arg] = stores.get(n.arg, 0) + 1
+    return stores
+
+
+def _inline_where(fnode, accept):
+    """T = <expr> with accept(expr) true, T stored exactly once in the function, every name inside <expr> stored at most
+    once (parameters, loop variables of enclosing loops, other single-assignment names): uses of T in the rest of its
+    block are replaced by <expr> and the assignment is dropped"""
+    fn = copy.deepcopy(fnode)
+    stores = _store_counts(fn)
+    for n in list(ast.walk(fn)):
+        for f in ('body', 'orelse', 'finalbody'):
+            blk = getattr(n, f, None)
+            if not (isinstance(blk, list) and blk and isinstance(blk[0], ast.stmt)):
+                continue
+            i = 0
+            while i < len(blk):
+                s = blk[i]
+                if isinstance(s, ast.Assign) and len(s.targets) == 1 and isinstance(s.targets[0], ast.Name) and \
+                        stores.get(s.targets[0].id) == 1 and accept(s.value):
+                    t = s.targets[0].id
+                    rest = blk[i + 1:]
+                    operands = {x.id for x in ast.walk(s.value) if isinstance(x, ast.Name)}
+                    rebound = {x.id for r in rest for x in ast.walk(r) if isinstance(x, ast.Name) and
+                               isinstance(x.ctx, ast.Store)}
+                    if operands & rebound:
+                        i += 1
+                        continue
+                    # no store through the alias (T[k] = ...) and no use outside this block
+                    uses_elsewhere = sum(1 for x in ast.walk(fn) if isinstance(x, ast.Name) and x.id == t) - \
+                        sum(1 for r in rest for x in ast.walk(r) if isinstance(x, ast.Name) and x.id == t) - 1
+                    if uses_elsewhere == 0:
+                        blk[i + 1:] = [_SubstName(t, s.value).visit(r) for r in rest]
+                        del blk[i]
+                        continue
+                i += 1
+    ast.fix_missing_locations(fn)
+    return fn
+
+
+def inline_self_aliases(fnode):
+    """T = self.<attr>[..][..]  (a row / entry of a node-family table)"""
+    def accept(v):
+        while isinstance(v, ast.Subscript):
+            v = v.value
+        return isinstance(v, ast.Attribute) and isinstance(v.value, ast.Name) and v.value.id == 'self' and \
+            v is not None
+    def acc(v):
+        return isinstance(v, ast.Subscript) and accept(v)
+    return _inline_where(fnode, acc)
+
+
+def inline_scalar_temps(fnode):
+    """T = <integer arithmetic over names, constants and self.L> (e.g. h = L // 2)"""
+    def accept(v):
+        if not isinstance(v, (ast.BinOp, ast.UnaryOp)):
+            return False
+        for x in ast.walk(v):
+            if not isinstance(x, (ast.BinOp, ast.Name, ast.Constant, ast.Add, ast.Sub, ast.Mult, ast.FloorDiv, ast.Load,
+                                  ast.UnaryOp, ast.USub, ast.Attribute)):
+                return False
+            if isinstance(x, ast.Attribute) and norm(x) != 'self.L':
+                return False
+            if isinstance(x, ast.Constant) and not isinstance(x.value, int):
+                return False
+        return True
+    return _inline_where(fnode, accept)
+
+
+def class_method(fi):
+    """methods of the node-table classes as the C07 rules read them: local name of self.L canonical, dict comprehensions
+    as loops, integer temporaries and aliases of table rows inlined"""
+    from .canon import canonical, CLASS_L_ROLES
+    return wrap(canonical(fi, CLASS_L_ROLES), dictcomp_to_loops, inline_scalar_temps, inline_self_aliases)
